@@ -50,9 +50,17 @@ fn quoted_fragments(msg: &str) -> Vec<&str> {
 pub fn compare_parse(input: &str, exp: &Value, obs: &ParseOut) -> Vec<&'static str> {
     let mut kinds = vec![];
     let st = exp.get("st").and_then(|v| v.as_str()).unwrap_or("");
+    // whatever the spelling (also one whose meaning the specification leaves open): a returned tree holds no
+    // scan-wide option, and a panic is never an answer
+    if let ParseOut::Ok(_, t) = obs {
+        let tj = expr_to_json(t).to_string();
+        if ["\"g_depth\"", "\"g_threads\"", "\"g_maxdepth\"", "\"g_mindepth\""].iter().any(|k| tj.contains(k)) {
+            return vec!["option-in-tree"];
+        }
+    }
     match (st, obs) {
-        ("unspec", _) => {}
         (_, ParseOut::Panic(_)) => kinds.push("panic"),
+        ("unspec", _) => {}
         ("ok", ParseOut::Ok(o, t)) => {
             if exp.get("t") != Some(&expr_to_json(t)) {
                 kinds.push("tree-mismatch");
